@@ -87,6 +87,7 @@ func (ex *Exec) doCall(th *Thread, fr *Frame, c *ssa.CallCommon, site *ssa.Call)
 	}
 	if callee.intr != "" {
 		a := args
+		ex.curSite = site
 		res, blocked := ex.callIntrinsic(th, callee.intr, append(append([]Value{}, callee.bound...), a...), site)
 		if blocked {
 			return
@@ -313,6 +314,9 @@ func (e *Engine) classify(fn *ssa.Function) string {
 	if strings.HasPrefix(fn.Name(), "verif") && fn.Pkg != nil && fn.Signature.Recv() == nil {
 		if _, ok := verifAPI[fn.Name()]; ok {
 			return "verif:" + fn.Name()
+		}
+		if strings.HasPrefix(fn.Name(), "verifAbstractSlice") {
+			return "verif:verifAbstractSlice"
 		}
 	}
 	if _, ok := intrinsics[key]; ok {
